@@ -1,22 +1,22 @@
 //! C15 — incremental fitting: Gaussian / multinomial naive Bayes (`fit_with` batch by batch vs one
-//! `fit`, vs the textbook estimates), mini-batch k-means (`fit_with` recurrence, convergence flag),
-//! FTRL (`update` / `fit_with` recurrence, exact zeros).
+//! `fit`, vs the textbook estimates), mini-batch k-means (`fit_with` recurrence, convergence flag,
+//! first-batch initialisation, inertia: `c15_km.rs`), FTRL (`update` / `fit_with` recurrence, exact
+//! zeros, probabilities: `c15_ftrl.rs`).
 //!
 //! One request line carries the whole batch history; the response lists the state after every batch.
 //! Inputs are lattice values (small integers / dyadic rationals) so sums are exact in f64 whatever
 //! the reduction order; the only `~` tokens are values that went through ndarray's Welford variance
 //! (fused multiply-add), libm (`ln`, `exp`) or a dot product of non-lattice values.
 use crate::util::*;
-use linfa::dataset::Pr;
 use linfa::prelude::*;
 use linfa_bayes::{GaussianNb, MultinomialNb};
-use linfa_clustering::{IncrKMeansError, KMeans, KMeansInit};
-use linfa_ftrl::Ftrl;
-use linfa_nn::distance::L2Dist;
-use ndarray::{Array1, Array2};
-use rand_xoshiro::rand_core::SeedableRng;
-use rand_xoshiro::Xoshiro256Plus;
+use ndarray::{s, Array1, Array2, ArrayView2, ShapeBuilder};
 use std::collections::BTreeMap;
+
+#[path = "c15_ftrl.rs"]
+mod ftrl;
+#[path = "c15_km.rs"]
+mod km;
 
 type Rows = Vec<Vec<f64>>;
 type Hist = Vec<(Rows, Vec<usize>)>;
@@ -48,37 +48,64 @@ fn near_v(a: &[f64], b: &[f64], tol: f64) -> bool {
 /// per-class statistics: (count, prior, first vector, second vector)
 type NbState = BTreeMap<usize, (usize, f64, Vec<f64>, Vec<f64>)>;
 
+#[derive(Clone, Copy, PartialEq, Debug)]
+enum KeyKind {
+    Usize,
+    Str,
+    Bool,
+}
+
 /// The naive-Bayes models keep their statistics private; they are read through the public serde
 /// implementation (bincode, so that infinities and NaN survive).  Layout: map length, then per
 /// class `key, class_count, prior, array, array`; an `Array1` is `v: u8, dim: [u64; 1], data: seq`.
-fn nb_state<M: serde::Serialize>(m: &M) -> NbState {
-    let bytes = bincode::serialize(m).expect("model serialises");
+/// `key` is a `usize` (8 bytes), a `String` (length + bytes, written `L<number>` by the harness) or a
+/// `bool` (1 byte; `distinct` lists the at most two labels it stands for); floats are 8 or 4 bytes.
+fn nb_state_gen(bytes: &[u8], key: KeyKind, is_f32: bool, distinct: &[usize]) -> NbState {
     let mut pos = 0usize;
-    let mut u64_ = |pos: &mut usize| {
+    let u64_ = |pos: &mut usize| {
         let v = u64::from_le_bytes(bytes[*pos..*pos + 8].try_into().unwrap());
         *pos += 8;
         v
     };
+    let fl = |pos: &mut usize| -> f64 {
+        if is_f32 {
+            let v = f32::from_bits(u32::from_le_bytes(bytes[*pos..*pos + 4].try_into().unwrap()));
+            *pos += 4;
+            v as f64
+        } else {
+            let v = f64::from_bits(u64::from_le_bytes(bytes[*pos..*pos + 8].try_into().unwrap()));
+            *pos += 8;
+            v
+        }
+    };
     let mut out = BTreeMap::new();
     let nclass = u64_(&mut pos);
     for _ in 0..nclass {
-        let key = u64_(&mut pos) as usize;
+        let key = match key {
+            KeyKind::Usize => u64_(&mut pos) as usize,
+            KeyKind::Str => {
+                let len = u64_(&mut pos) as usize;
+                let s = std::str::from_utf8(&bytes[pos..pos + len]).expect("utf8 label").to_string();
+                pos += len;
+                s[1..].parse::<usize>().expect("label written by the harness")
+            }
+            KeyKind::Bool => {
+                let b = bytes[pos];
+                pos += 1;
+                assert!(b <= 1, "bool label");
+                distinct[b as usize]
+            }
+        };
         let cnt = u64_(&mut pos) as usize;
-        let prior = f64::from_bits(u64_(&mut pos));
-        let mut arr = |pos: &mut usize| -> Vec<f64> {
+        let prior = fl(&mut pos);
+        let arr = |pos: &mut usize| -> Vec<f64> {
             assert_eq!(bytes[*pos], 1, "ndarray serde version");
             *pos += 1;
             let dim = u64::from_le_bytes(bytes[*pos..*pos + 8].try_into().unwrap());
             let len = u64::from_le_bytes(bytes[*pos + 8..*pos + 16].try_into().unwrap());
             assert_eq!(dim, len);
             *pos += 16;
-            (0..len)
-                .map(|_| {
-                    let v = f64::from_bits(u64::from_le_bytes(bytes[*pos..*pos + 8].try_into().unwrap()));
-                    *pos += 8;
-                    v
-                })
-                .collect()
+            (0..len).map(|_| fl(pos)).collect()
         };
         let a = arr(&mut pos);
         let b = arr(&mut pos);
@@ -87,13 +114,16 @@ fn nb_state<M: serde::Serialize>(m: &M) -> NbState {
     assert_eq!(pos, bytes.len(), "whole model consumed");
     out
 }
+fn nb_state<M: serde::Serialize>(m: &M) -> NbState {
+    nb_state_gen(&bincode::serialize(m).expect("model serialises"), KeyKind::Usize, false, &[])
+}
 fn show_state(s: &NbState, a: &str, b: &str) -> String {
     if s.is_empty() {
         return "-".into();
     }
     s.iter().map(|(c, (n, pr, v1, v2))| format!("c={}/n={}/pr={}/{}={}/{}={}", c, n, hex64c(*pr), a, list(v1.iter(), |x| hex64c(*x)), b, list(v2.iter(), |x| tf(*x)))).collect::<Vec<_>>().join(";")
 }
-fn concat(h: &Hist) -> (Rows, Vec<usize>) {
+fn concat(h: &[(Rows, Vec<usize>)]) -> (Rows, Vec<usize>) {
     let mut r = vec![];
     let mut l = vec![];
     for (a, b) in h {
@@ -108,13 +138,110 @@ fn col_var(rows: &[&Vec<f64>], j: usize) -> (f64, f64) {
     let var = rows.iter().map(|r| (r[j] - mean) * (r[j] - mean)).sum::<f64>() / n;
     (mean, var)
 }
+fn distinct_labels(h: &Hist) -> Vec<usize> {
+    let mut v: Vec<usize> = h.iter().flat_map(|(_, l)| l.iter().cloned()).collect();
+    v.sort();
+    v.dedup();
+    v
+}
+
+// ------------------------------------------------------------ entry-point variants (scalar, label type, memory layout)
+
+/// label types of the variants: the same history with the labels written as `String` / `bool`
+trait VLabel: linfa::Label + serde::Serialize + 'static {
+    const KIND: KeyKind;
+    const NAME: &'static str;
+    fn mk(l: usize, distinct: &[usize]) -> Self;
+    fn back(&self, distinct: &[usize]) -> usize;
+}
+impl VLabel for usize {
+    const KIND: KeyKind = KeyKind::Usize;
+    const NAME: &'static str = "usize";
+    fn mk(l: usize, _: &[usize]) -> Self {
+        l
+    }
+    fn back(&self, _: &[usize]) -> usize {
+        *self
+    }
+}
+impl VLabel for String {
+    const KIND: KeyKind = KeyKind::Str;
+    const NAME: &'static str = "string";
+    fn mk(l: usize, _: &[usize]) -> Self {
+        format!("L{}", l)
+    }
+    fn back(&self, _: &[usize]) -> usize {
+        self[1..].parse().unwrap()
+    }
+}
+impl VLabel for bool {
+    const KIND: KeyKind = KeyKind::Bool;
+    const NAME: &'static str = "bool";
+    fn mk(l: usize, distinct: &[usize]) -> Self {
+        distinct.iter().position(|d| *d == l).expect("label of the history") == 1
+    }
+    fn back(&self, distinct: &[usize]) -> usize {
+        distinct[*self as usize]
+    }
+}
+const LAYOUTS: [&str; 3] = ["owned", "fview", "strided"];
+/// backing storage for a record matrix: C order, Fortran order, or every second row / all but the last
+/// column of a larger matrix (a non-contiguous view)
+fn mk_store<F: linfa::Float>(rows: &Rows, p: usize, layout: usize) -> Array2<F> {
+    let n = rows.len();
+    match layout {
+        1 => Array2::from_shape_fn((n, p).f(), |(i, j)| F::cast(rows[i][j])),
+        2 => Array2::from_shape_fn((2 * n, p + 1), |(i, j)| if i % 2 == 0 && j < p { F::cast(rows[i / 2][j]) } else { F::cast(-77.0) }),
+        _ => Array2::from_shape_fn((n, p), |(i, j)| F::cast(rows[i][j])),
+    }
+}
+fn mk_view<F: linfa::Float>(store: &Array2<F>, p: usize, layout: usize) -> ArrayView2<'_, F> {
+    if layout == 2 {
+        store.slice(s![..;2, ..p])
+    } else {
+        store.view()
+    }
+}
+
+macro_rules! nb_variant {
+    ($name:ident, $model:ident, $setter:ident) => {
+        /// the history fed through `fit_with` on `DatasetView`s of the given scalar / label type / layout;
+        /// states after every batch (labels mapped back) and the predictions for `qs`
+        fn $name<F: linfa::Float + serde::Serialize, L: VLabel>(h: &Hist, p: usize, smoothing: f64, layout: usize, distinct: &[usize], qs: &Rows, pred_if: &dyn Fn(&NbState) -> bool) -> (Vec<NbState>, Option<Vec<usize>>) {
+            let params = $model::<F, L>::params().$setter(F::cast(smoothing)).check().expect("valid parameters");
+            let mut model: Option<$model<F, L>> = None;
+            let mut states = vec![];
+            for (rows, labels) in h {
+                let store = mk_store::<F>(rows, p, layout);
+                let ys: Array1<L> = labels.iter().map(|l| L::mk(*l, distinct)).collect();
+                let ds = DatasetView::new(mk_view(&store, p, layout), ys.view());
+                model = params.fit_with(model, &ds).expect("fit_with on a valid batch");
+                let bytes = bincode::serialize(model.as_ref().unwrap()).expect("model serialises");
+                states.push(nb_state_gen(&bytes, L::KIND, std::mem::size_of::<F>() == 4, distinct));
+            }
+            // predictions only where the posterior of the final model is defined (the arg-max of the real code
+            // panics on NaN scores: zero variance without smoothing, alpha = 0 with unseen features)
+            if !pred_if(states.last().unwrap()) {
+                return (states, None);
+            }
+            let qstore = mk_store::<F>(qs, p, layout);
+            let pred = model.as_ref().unwrap().predict(&mk_view(&qstore, p, layout));
+            (states, Some(pred.iter().map(|l| l.back(distinct)).collect()))
+        }
+    };
+}
+nb_variant!(gnb_variant, GaussianNb, var_smoothing);
+nb_variant!(mnb_variant, MultinomialNb, alpha);
 
 // ---------------------------------------------------------------- Gaussian NB
 
-fn gnb_textbook(rows: &Rows, labels: &[usize], p: usize, vs: f64) -> NbState {
+fn batch_eps(rows: &Rows, p: usize, vs: f64) -> f64 {
     let all: Vec<&Vec<f64>> = rows.iter().collect();
-    let maxvar = (0..p).map(|j| col_var(&all, j).1).fold(f64::NEG_INFINITY, f64::max);
-    let eps = vs * maxvar;
+    vs * (0..p).map(|j| col_var(&all, j).1).fold(f64::NEG_INFINITY, f64::max)
+}
+
+/// textbook estimate: class frequencies, per-class means, per-class variances + `eps(c)`
+fn gnb_stats(rows: &Rows, labels: &[usize], p: usize, eps: &dyn Fn(usize) -> f64) -> NbState {
     let mut out = BTreeMap::new();
     let mut classes: Vec<usize> = labels.to_vec();
     classes.sort();
@@ -122,14 +249,59 @@ fn gnb_textbook(rows: &Rows, labels: &[usize], p: usize, vs: f64) -> NbState {
     for c in classes {
         let rc: Vec<&Vec<f64>> = rows.iter().zip(labels).filter(|(_, l)| **l == c).map(|(r, _)| r).collect();
         let mv: Vec<(f64, f64)> = (0..p).map(|j| col_var(&rc, j)).collect();
-        out.insert(c, (rc.len(), rc.len() as f64 / rows.len() as f64, mv.iter().map(|x| x.0).collect(), mv.iter().map(|x| x.1 + eps).collect()));
+        let e = eps(c);
+        out.insert(c, (rc.len(), rc.len() as f64 / rows.len() as f64, mv.iter().map(|x| x.0).collect(), mv.iter().map(|x| x.1 + e).collect()));
     }
     out
+}
+fn gnb_textbook(rows: &Rows, labels: &[usize], p: usize, vs: f64) -> NbState {
+    let eps = batch_eps(rows, p, vs);
+    gnb_stats(rows, labels, p, &|_| eps)
+}
+/// What `fit_with` stores after the history (Lean: `gnb_replay_any_smoothing`): everything as in the
+/// textbook estimate except that the smoothing term of class c is `Σ_b eps_b · n_cb / n_c`, the mean of
+/// the per-batch epsilons weighted by the rows of the class in each batch.  Second component: the
+/// weighted term equals the textbook epsilon for every class (then the open finding does not apply).
+fn gnb_code_law(h: &[(Rows, Vec<usize>)], p: usize, vs: f64) -> (NbState, bool) {
+    let (rows, labels) = concat(h);
+    let eps_all = batch_eps(&rows, p, vs);
+    let eps_b: Vec<f64> = h.iter().map(|(r, _)| batch_eps(r, p, vs)).collect();
+    let eff = |c: usize| -> f64 {
+        let mut s = 0.0;
+        let mut n = 0usize;
+        for (b, (_, l)) in h.iter().enumerate() {
+            let m = l.iter().filter(|x| **x == c).count();
+            s += eps_b[b] * m as f64;
+            n += m;
+        }
+        s / n as f64
+    };
+    let st = gnb_stats(&rows, &labels, p, &eff);
+    let uniform = st.keys().all(|c| (eff(*c) - eps_all).abs() <= 1e-13 * (1.0 + eps_all.abs()));
+    (st, uniform)
 }
 
 const TOL: f64 = 1e-10;
 
-fn cmp_states(ctx: &mut Ctx, what: &str, got: &NbState, want: &NbState, kind: &str, var_class: &str, exact_second: bool) {
+/// tolerances of one comparison: means, second vector
+#[derive(Clone, Copy)]
+struct Tols {
+    mean: f64,
+    second: f64,
+    /// priors and multinomial feature counts compared bit for bit (f64 on lattice inputs)
+    exact: bool,
+}
+const T64: Tols = Tols { mean: TOL, second: TOL, exact: true };
+/// f64 on real-valued (non-lattice) inputs: sums are no longer exact, everything is judged at 1e-10 (1 + |x|)
+/// (<= 600 rows of magnitude <= 150: a few thousand roundings of 1.1e-16 relative, < 1e-12)
+const T64R: Tols = Tols { mean: TOL, second: TOL, exact: false };
+/// f32 instantiation: lattice sums stay exact (|values| <= 8, quarters, <= 128 rows: all partial sums are
+/// multiples of 1/16 below 2^24/16), so the error is that of a few roundings (6e-8 relative each) per row and
+/// per batch: pooled mean 3 roundings per batch, <= 128 batches: 2.3e-5 worst case; Welford / pooled variance
+/// <= ~3 roundings per row plus 5 per batch: 4e-5 worst case (twice the bound for means, five times for variances)
+const T32: Tols = Tols { mean: 5e-5, second: 2e-4, exact: false };
+
+fn cmp_states(ctx: &mut Ctx, what: &str, got: &NbState, want: &NbState, kind: &str, second_clause: &str, var_class: &str, multinomial: bool, t: Tols) {
     let keys_ok = got.keys().collect::<Vec<_>>() == want.keys().collect::<Vec<_>>();
     ctx.require(keys_ok, "counts_priors", kind, || format!("{}: classes {:?}, textbook {:?}", what, got.keys().collect::<Vec<_>>(), want.keys().collect::<Vec<_>>()));
     if !keys_ok {
@@ -137,20 +309,51 @@ fn cmp_states(ctx: &mut Ctx, what: &str, got: &NbState, want: &NbState, kind: &s
     }
     for (c, (n, pr, v1, v2)) in got {
         let (wn, wpr, w1, w2) = &want[c];
-        ctx.require(n == wn && pr == wpr, "counts_priors", kind, || format!("{}: class {} count {} prior {}, textbook {} / {}", what, c, n, pr, wn, wpr));
-        if exact_second {
+        // the prior is one division of two exactly representable counts: exact in f64, one f32 rounding otherwise
+        let pr_ok = if t.exact || t.mean == TOL { pr == wpr } else { near(*pr, *wpr, 1e-7) };
+        ctx.require(n == wn && pr_ok, "counts_priors", kind, || format!("{}: class {} count {} prior {}, textbook {} / {}", what, c, n, pr, wn, wpr));
+        if multinomial {
             // multinomial: first vector = additive counts (exact), second = smoothed log-frequencies
-            ctx.require(v1 == w1, "feature_counts", kind, || format!("{}: class {} feature counts {:?}, textbook {:?}", what, c, v1, w1));
-            ctx.require(near_v(v2, w2, TOL), "log_prob", kind, || format!("{}: class {} log-frequencies {:?}, textbook {:?}", what, c, v2, w2));
+            ctx.require(if t.exact { v1 == w1 } else { near_v(v1, w1, t.mean) }, "feature_counts", kind, || format!("{}: class {} feature counts {:?}, textbook {:?}", what, c, v1, w1));
+            ctx.require(near_v(v2, w2, t.second), second_clause, kind, || format!("{}: class {} log-frequencies {:?}, textbook {:?}", what, c, v2, w2));
         } else {
-            ctx.require(near_v(v1, w1, TOL), "mean_replay", kind, || format!("{}: class {} mean {:?}, textbook {:?}", what, c, v1, w1));
-            ctx.require(near_v(v2, w2, TOL), "var_replay", var_class, || format!("{}: class {} variance {:?}, textbook (per-class variance + var_smoothing*max variance of the whole data) {:?}", what, c, v2, w2));
+            ctx.require(near_v(v1, w1, t.mean), "mean_replay", kind, || format!("{}: class {} mean {:?}, textbook {:?}", what, c, v1, w1));
+            ctx.require(near_v(v2, w2, t.second), second_clause, var_class, || format!("{}: class {} variance {:?}, expected {:?}", what, c, v2, w2));
         }
     }
 }
 
-fn gnb_class(vs: f64, nb: usize) -> String {
-    format!("gnb:var_smoothing={}:batches={}", if vs == 0.0 { "zero" } else { "positive" }, if nb <= 1 { "single" } else { "multi" })
+/// class of the textbook variance / prediction clauses.  The open finding (epsilon taken from the current
+/// batch) is confined to `positive:batches=multi` with batch epsilons that do not average to the
+/// textbook epsilon; histories whose batches share the epsilon of the whole data get their own class,
+/// which is not listed, so the textbook variance is enforced there.
+fn gnb_class(vs: f64, nb: usize, uniform: bool) -> String {
+    let base = format!("gnb:var_smoothing={}:batches={}", if vs == 0.0 { "zero" } else { "positive" }, if nb <= 1 { "single" } else { "multi" });
+    if vs != 0.0 && nb > 1 && uniform {
+        format!("{}:eps=uniform", base)
+    } else {
+        base
+    }
+}
+
+/// every prefix of the history against (a) the textbook estimate of the data seen so far and (b) the
+/// exact law of the code for any smoothing (row-weighted batch epsilons)
+fn gnb_oracle(ctx: &mut Ctx, h: &Hist, p: usize, vs: f64, states: &[NbState], kind: &str, t: Tols) {
+    for (i, st) in states.iter().enumerate() {
+        let pre = &h[..=i];
+        let (r, l) = concat(pre);
+        let w = gnb_textbook(&r, &l, p, vs);
+        let (law, uniform) = gnb_code_law(pre, p, vs);
+        let what = format!("after batch {} of {}", i + 1, h.len());
+        cmp_states(ctx, &what, st, &w, kind, "var_replay", &gnb_class(vs, i + 1, uniform), false, t);
+        // independent of the open finding: counts, means as above; variance = population variance +
+        // Σ_b eps_b n_cb / n_c exactly (an absent class keeps its epsilon, a new class gets the batch's)
+        for (c, (_, _, _, v2)) in st {
+            if let Some((_, _, _, w2)) = law.get(c) {
+                ctx.require(near_v(v2, w2, t.second), "var_weighted_eps", kind, || format!("{}: class {} variance {:?}, population variance + row-weighted mean of the batch epsilons {:?}", what, c, v2, w2));
+            }
+        }
+    }
 }
 
 fn gnb_run(h: &Hist, p: usize, vs: f64) -> Result<(Vec<NbState>, Option<GaussianNb<f64, usize>>), String> {
@@ -171,21 +374,19 @@ fn op_gnb(em: &mut Em, h: &Hist, p: usize, vs: f64) {
     let body = |ctx: &mut Ctx| {
         let (states, _) = match gnb_run(h, p, vs) {
             Ok(x) => x,
-            Err(_) => return "err".to_string(),
+            Err(e) => {
+                // the only errors of the real code are the two guards (no feature column, empty batch)
+                ctx.require(!valid, "fit_succeeds", "gnb", || format!("fit_with returned an error on a valid history: {}", e));
+                return "err".to_string();
+            }
         };
         let (rows, labels) = concat(h);
         let want = gnb_textbook(&rows, &labels, p, vs);
         let params = GaussianNb::<f64, usize>::params().var_smoothing(vs).check().unwrap();
         let ds = Dataset::new(arr2(&rows, p), Array1::from(labels.clone()));
         let batch = nb_state(&params.fit(&ds).expect("batch fit"));
-        cmp_states(ctx, "single fit on the whole data", &batch, &want, "gnb:batch", "gnb:batch", false);
-        // every prefix of the history must equal the textbook estimate of the data seen so far
-        for (i, st) in states.iter().enumerate() {
-            let pre: Hist = h[..=i].to_vec();
-            let (r, l) = concat(&pre);
-            let w = gnb_textbook(&r, &l, p, vs);
-            cmp_states(ctx, &format!("after batch {} of {}", i + 1, h.len()), st, &w, "gnb", &gnb_class(vs, i + 1), false);
-        }
+        cmp_states(ctx, "single fit on the whole data", &batch, &want, "gnb:batch", "var_replay", "gnb:batch", false, T64);
+        gnb_oracle(ctx, h, p, vs, &states, "gnb", T64);
         format!("ok {}", states.iter().map(|s| show_state(s, "th", "sg")).collect::<Vec<_>>().join(" "))
     };
     if valid {
@@ -195,20 +396,30 @@ fn op_gnb(em: &mut Em, h: &Hist, p: usize, vs: f64) {
     }
 }
 
-fn gnb_jll(st: &NbState, x: &[f64]) -> Vec<(usize, f64)> {
+/// joint log-likelihoods per class: (class, score, Σ|terms| — the scale of the rounding noise)
+fn gnb_jll(st: &NbState, x: &[f64]) -> Vec<(usize, f64, f64)> {
     st.iter()
         .map(|(c, (_, pr, th, sg))| {
-            let a: f64 = sg.iter().map(|s| (2.0 * std::f64::consts::PI * s).ln()).sum::<f64>() * -0.5;
+            let lt: Vec<f64> = sg.iter().map(|s| (2.0 * std::f64::consts::PI * s).ln()).collect();
+            let a: f64 = lt.iter().sum::<f64>() * -0.5;
             let q: f64 = x.iter().zip(th).zip(sg).map(|((x, t), s)| (x - t) * (x - t) / s).sum::<f64>() * 0.5;
-            (*c, a - q + pr.ln())
+            (*c, a - q + pr.ln(), 0.5 * lt.iter().map(|v| v.abs()).sum::<f64>() + q.abs() + pr.ln().abs())
         })
         .collect()
 }
-fn mnb_jll(st: &NbState, x: &[f64]) -> Vec<(usize, f64)> {
-    st.iter().map(|(c, (_, pr, _, lp))| (*c, x.iter().zip(lp).map(|(a, b)| a * b).sum::<f64>() + pr.ln())).collect()
+fn mnb_jll(st: &NbState, x: &[f64]) -> Vec<(usize, f64, f64)> {
+    st.iter()
+        .map(|(c, (_, pr, _, lp))| {
+            let terms: Vec<f64> = x.iter().zip(lp).map(|(a, b)| a * b).collect();
+            (*c, terms.iter().sum::<f64>() + pr.ln(), terms.iter().map(|v| v.abs()).sum::<f64>() + pr.ln().abs())
+        })
+        .collect()
 }
-/// (best class, margin to the second best)
-fn best(scores: &[(usize, f64)]) -> (usize, f64) {
+/// (best class, margin to the second best relative to `1 + |best score|` — the number written into the
+/// response, same formula as the driver —, margin relative to `1 + largest Σ|terms|` — what the oracle
+/// judges: scores can be huge or cancel when a smoothed variance is tiny, the rounding noise scales with
+/// the terms)
+fn best(scores: &[(usize, f64, f64)]) -> (usize, f64, f64) {
     let mut b = scores[0];
     for s in scores {
         if s.1 > b.1 {
@@ -216,22 +427,33 @@ fn best(scores: &[(usize, f64)]) -> (usize, f64) {
         }
     }
     let second = scores.iter().filter(|s| s.0 != b.0).map(|s| s.1).fold(f64::NEG_INFINITY, f64::max);
-    (b.0, b.1 - second)
+    let scale = scores.iter().map(|s| if s.2.is_finite() { s.2 } else { 0.0 }).fold(0.0, f64::max);
+    (b.0, (b.1 - second) / (1.0 + b.1.abs()), (b.1 - second) / (1.0 + scale))
+}
+fn scores_defined(sc: &[(usize, f64, f64)]) -> bool {
+    sc.iter().all(|s| !s.1.is_nan()) && sc.iter().any(|s| s.1.is_finite())
 }
 
-/// shared oracle of the two prediction ops
-fn pred_oracle(ctx: &mut Ctx, kind: &str, eq_class: &str, qs: &Rows, inc_pred: &[usize], batch_pred: &[usize], inc_scores: &dyn Fn(&[f64]) -> Vec<(usize, f64)>, text_scores: &dyn Fn(&[f64]) -> Vec<(usize, f64)>) -> f64 {
+type ScoreFn<'a> = &'a dyn Fn(&[f64]) -> Vec<(usize, f64, f64)>;
+/// shared oracle of the prediction ops; `min_rel` = smallest relative margin that is judged
+fn pred_oracle(ctx: &mut Ctx, kind: &str, eq_class: &str, qs: &Rows, inc_pred: &[usize], batch_pred: Option<&[usize]>, inc_scores: ScoreFn, text_scores: Option<ScoreFn>, min_rel: f64) -> f64 {
     let mut min_margin = f64::INFINITY;
     for (i, q) in qs.iter().enumerate() {
-        let (bc, m) = best(&inc_scores(q));
-        min_margin = min_margin.min(m);
-        if m > 1e-7 {
-            ctx.require(inc_pred[i] == bc, "predict_is_argmax_posterior", kind, || format!("query {:?}: predicted {}, posterior of the model's own statistics is maximal at {} (margin {})", q, inc_pred[i], bc, m));
+        let (bc, mr, m) = best(&inc_scores(q));
+        if mr < min_margin {
+            min_margin = mr;
         }
-        let (tc, tm) = best(&text_scores(q));
-        if tm > 1e-7 {
-            ctx.require(batch_pred[i] == tc, "batch_predict_is_textbook_argmax", kind, || format!("query {:?}: batch model predicts {}, textbook posterior maximal at {}", q, batch_pred[i], tc));
-            ctx.require(inc_pred[i] == tc, "predict_equals_batch", eq_class, || format!("query {:?}: incremental model predicts {}, batch/textbook {} (textbook margin {})", q, inc_pred[i], tc, tm));
+        if m > min_rel {
+            ctx.require(inc_pred[i] == bc, "predict_is_argmax_posterior", kind, || format!("query {:?}: predicted {}, posterior of the model's own statistics is maximal at {} (relative margin {})", q, inc_pred[i], bc, m));
+        }
+        if let Some(ts) = text_scores {
+            let (tc, _, tm) = best(&ts(q));
+            if tm > min_rel {
+                if let Some(bp) = batch_pred {
+                    ctx.require(bp[i] == tc, "batch_predict_is_textbook_argmax", kind, || format!("query {:?}: batch model predicts {}, textbook posterior maximal at {}", q, bp[i], tc));
+                }
+                ctx.require(inc_pred[i] == tc, "predict_equals_batch", eq_class, || format!("query {:?}: incremental model predicts {}, batch/textbook {} (relative textbook margin {})", q, inc_pred[i], tc, tm));
+            }
         }
     }
     min_margin
@@ -250,8 +472,52 @@ fn op_gnb_pred(em: &mut Em, h: &Hist, p: usize, vs: f64, qs: &Rows) {
         let batch_pred = params.fit(&ds).unwrap().predict(&q).to_vec();
         let text = gnb_textbook(&rows, &labels, p, vs);
         let last = states.last().unwrap().clone();
-        let m = pred_oracle(ctx, "gnb_pred", &gnb_class(vs, h.len()), qs, &inc_pred, &batch_pred, &|x| gnb_jll(&last, x), &|x| gnb_jll(&text, x));
+        let (_, uniform) = gnb_code_law(h, p, vs);
+        let m = pred_oracle(ctx, "gnb_pred", &gnb_class(vs, h.len(), uniform), qs, &inc_pred, Some(&batch_pred), &|x| gnb_jll(&last, x), Some(&|x| gnb_jll(&text, x)), 1e-8);
         format!("ok pred={} margin={}", list(inc_pred.iter(), |x| x.to_string()), tf(m))
+    });
+}
+
+/// entry-point variants of the same history: f32, `String` / `bool` labels, Fortran-ordered and strided
+/// `DatasetView`s.  Oracle only (the model side is the f64/usize/owned run of `gnb`): every prefix against
+/// the textbook estimate and the weighted-epsilon law, predictions against the arg-max of the model's own
+/// statistics.
+fn op_gnb_var(em: &mut Em, h: &Hist, p: usize, vs: f64, qs: &Rows, f32_: bool, lab: usize, layout: usize, real: bool) {
+    let distinct = distinct_labels(h);
+    let lab = if lab == 2 && distinct.len() > 2 { 1 } else { lab };
+    let labname = ["usize", "string", "bool"][lab];
+    let kind = format!("gnb_var:{}:{}:{}{}", if f32_ { "f32" } else { "f64" }, labname, LAYOUTS[layout], if real { ":real" } else { "" });
+    let op = format!("#gnb_var f={} lab={} layout={} vs={} p={} x={} y={} q={}", if f32_ { 32 } else { 64 }, labname, LAYOUTS[layout], hex64(vs), p, hist_x(h), hist_y(h), list2(qs.iter().map(|x| x.iter()), |x| hex64(*x)));
+    em.count(&format!("variant:{}", kind));
+    em.case_valid(op, &kind, |ctx| {
+        let pos = |st: &NbState| st.values().all(|(_, _, _, sg)| sg.iter().all(|v| *v > 0.0 && v.is_finite()));
+        let (states, pred) = match (f32_, lab) {
+            (false, 0) => gnb_variant::<f64, usize>(h, p, vs, layout, &distinct, qs, &pos),
+            (false, 1) => gnb_variant::<f64, String>(h, p, vs, layout, &distinct, qs, &pos),
+            (false, _) => gnb_variant::<f64, bool>(h, p, vs, layout, &distinct, qs, &pos),
+            (true, 0) => gnb_variant::<f32, usize>(h, p, vs, layout, &distinct, qs, &pos),
+            (true, 1) => gnb_variant::<f32, String>(h, p, vs, layout, &distinct, qs, &pos),
+            (true, _) => gnb_variant::<f32, bool>(h, p, vs, layout, &distinct, qs, &pos),
+        };
+        // f32: var_smoothing itself is rounded to f32 (1e-9 is not representable); the oracle uses the rounded value
+        let vs_eff = if f32_ { vs as f32 as f64 } else { vs };
+        gnb_oracle(ctx, h, p, vs_eff, &states, &kind, if f32_ { T32 } else { T64 });
+        let _ = real;
+        let last = states.last().unwrap().clone();
+        if let Some(pred) = pred {
+            let (rows, labels) = concat(h);
+            let text = gnb_textbook(&rows, &labels, p, vs_eff);
+            let (_, uniform) = gnb_code_law(h, p, vs_eff);
+            let cls = gnb_class(vs, h.len(), uniform);
+            let text_ok = text.values().all(|(_, _, _, sg)| sg.iter().all(|v| *v > 0.0));
+            // f32: the scores are computed in f32 (~1e-6 of the terms), judged against the model's own (exactly
+            // read) statistics only; the f64 variants are also compared with the textbook posterior
+            let min_rel = if f32_ { 1e-3 } else { 1e-8 };
+            let ts = |x: &[f64]| gnb_jll(&text, x);
+            let ts_opt: Option<ScoreFn> = if text_ok && !f32_ { Some(&ts) } else { None };
+            pred_oracle(ctx, &kind, &cls, qs, &pred, None, &|x| gnb_jll(&last, x), ts_opt, min_rel);
+        }
+        "-".to_string()
     });
 }
 
@@ -285,6 +551,13 @@ fn mnb_run(h: &Hist, p: usize, alpha: f64) -> Result<(Vec<NbState>, Option<Multi
     }
     Ok((states, model))
 }
+fn mnb_oracle(ctx: &mut Ctx, h: &Hist, p: usize, alpha: f64, states: &[NbState], kind: &str, t: Tols) {
+    for (i, st) in states.iter().enumerate() {
+        let (r, l) = concat(&h[..=i]);
+        let w = mnb_textbook(&r, &l, p, alpha);
+        cmp_states(ctx, &format!("after batch {} of {}", i + 1, h.len()), st, &w, kind, "log_prob", kind, true, t);
+    }
+}
 fn op_mnb(em: &mut Em, h: &Hist, p: usize, alpha: f64) {
     let op = format!("mnb alpha={} p={} x={} y={}", hex64(alpha), p, hist_x(h), hist_y(h));
     em.case_valid(op, "mnb", |ctx| {
@@ -294,13 +567,8 @@ fn op_mnb(em: &mut Em, h: &Hist, p: usize, alpha: f64) {
         let params = MultinomialNb::<f64, usize>::params().alpha(alpha).check().unwrap();
         let ds = Dataset::new(arr2(&rows, p), Array1::from(labels.clone()));
         let batch = nb_state(&params.fit(&ds).expect("batch fit"));
-        cmp_states(ctx, "single fit on the whole data", &batch, &want, "mnb:batch", "mnb:batch", true);
-        for (i, st) in states.iter().enumerate() {
-            let pre: Hist = h[..=i].to_vec();
-            let (r, l) = concat(&pre);
-            let w = mnb_textbook(&r, &l, p, alpha);
-            cmp_states(ctx, &format!("after batch {} of {}", i + 1, h.len()), st, &w, "mnb", "mnb", true);
-        }
+        cmp_states(ctx, "single fit on the whole data", &batch, &want, "mnb:batch", "log_prob", "mnb:batch", true, T64);
+        mnb_oracle(ctx, h, p, alpha, &states, "mnb", T64);
         format!("ok {}", states.iter().map(|s| show_state(s, "fc", "lp")).collect::<Vec<_>>().join(" "))
     });
 }
@@ -317,182 +585,38 @@ fn op_mnb_pred(em: &mut Em, h: &Hist, p: usize, alpha: f64, qs: &Rows) {
         let batch_pred = params.fit(&ds).unwrap().predict(&q).to_vec();
         let text = mnb_textbook(&rows, &labels, p, alpha);
         let last = states.last().unwrap().clone();
-        let m = pred_oracle(ctx, "mnb_pred", "mnb_pred", qs, &inc_pred, &batch_pred, &|x| mnb_jll(&last, x), &|x| mnb_jll(&text, x));
+        let m = pred_oracle(ctx, "mnb_pred", "mnb_pred", qs, &inc_pred, Some(&batch_pred), &|x| mnb_jll(&last, x), Some(&|x| mnb_jll(&text, x)), 1e-8);
         format!("ok pred={} margin={}", list(inc_pred.iter(), |x| x.to_string()), tf(m))
     });
 }
-
-// ---------------------------------------------------------------- mini-batch k-means
-
-fn sqd(a: &[f64], b: &[f64]) -> f64 {
-    let mut s = 0.0;
-    for (x, y) in a.iter().zip(b) {
-        s += (x - y) * (x - y);
-    }
-    s
-}
-
-fn op_km(em: &mut Em, c0: &Rows, batches: &[Rows], tol: f64, seed: u64) {
-    let p = c0[0].len();
-    let k = c0.len();
-    let op = format!("km tol={} c0={} x={}", hex64(tol), list2(c0.iter().map(|x| x.iter()), |x| hex64(*x)), list3(batches.iter().map(|r| r.iter().map(|x| x.iter())), |x| hex64(*x)));
-    em.case_valid(op, "km", |ctx| {
-        let params = KMeans::params_with_rng(k, Xoshiro256Plus::seed_from_u64(seed)).tolerance(tol).init_method(KMeansInit::Precomputed(arr2(c0, p))).check().expect("valid k-means parameters");
-        let mut model: Option<KMeans<f64, L2Dist>> = None;
-        let mut parts = vec![];
-        // first-principles replay: everything ever assigned to a cluster
-        let mut cs: Rows = c0.clone();
-        let mut cnt = vec![0usize; k];
-        let mut sums: Rows = vec![vec![0.0; p]; k];
-        for (bi, b) in batches.iter().enumerate() {
-            let ds = DatasetBase::from(arr2(b, p));
-            let (m, conv) = match params.fit_with(model.take(), &ds) {
-                Ok(m) => (m, true),
-                Err(IncrKMeansError::NotConverged(m)) => (m, false),
-                Err(e) => panic!("unexpected error {}", e),
-            };
-            let got_cs: Rows = m.centroids().rows().into_iter().map(|r| r.to_vec()).collect();
-            let got_cnt: Vec<f64> = m.cluster_count().to_vec();
-            // oracle: assignment against the centroids at the start of the batch, documented recurrence
-            let mut want = cs.clone();
-            let mut tie = false;
-            for x in b {
-                let ds_: Vec<f64> = cs.iter().map(|c| sqd(c, x)).collect();
-                let mut bi_ = 0;
-                for (i, d) in ds_.iter().enumerate() {
-                    if *d < ds_[bi_] {
-                        bi_ = i;
-                    }
-                }
-                let mut sorted = ds_.clone();
-                sorted.sort_by(|a, b| a.partial_cmp(b).unwrap());
-                if sorted.len() > 1 && sorted[1] - sorted[0] < 1e-9 && sorted[1] != sorted[0] {
-                    tie = true;
-                }
-                cnt[bi_] += 1;
-                for j in 0..p {
-                    sums[bi_][j] += x[j];
-                    want[bi_][j] += (x[j] - want[bi_][j]) / cnt[bi_] as f64;
-                }
-            }
-            let class = format!("km:batch={}", if bi == 0 { "first" } else { "later" });
-            if !tie {
-                ctx.require(got_cnt.iter().zip(&cnt).all(|(a, b)| *a == *b as f64), "cumulative_counts", &class, || format!("batch {}: cluster_count {:?}, cumulative assignments {:?}", bi, got_cnt, cnt));
-                for c in 0..k {
-                    ctx.require(near_v(&got_cs[c], &want[c], 1e-12), "recurrence", &class, || format!("batch {}: centroid {} = {:?}, recurrence from the previous state gives {:?}", bi, c, got_cs[c], want[c]));
-                    if cnt[c] > 0 {
-                        let mean: Vec<f64> = sums[c].iter().map(|s| s / cnt[c] as f64).collect();
-                        ctx.require(near_v(&got_cs[c], &mean, 1e-9), "running_mean", &class, || format!("batch {}: centroid {} = {:?}, mean of the {} points ever assigned {:?}", bi, c, got_cs[c], cnt[c], mean));
-                    } else {
-                        ctx.require(got_cs[c] == c0[c], "running_mean", &class, || format!("batch {}: empty cluster {} moved to {:?}", bi, c, got_cs[c]));
-                    }
-                }
-            }
-            let shift = sqd(&cs.concat(), &got_cs.concat()).sqrt();
-            // exact equality is a real boundary on lattice inputs and is judged; only a shift within rounding
-            // distance of the tolerance (but not equal to it) is left undecided
-            if shift == tol || (shift - tol).abs() > 1e-12 * (1.0 + tol) {
-                ctx.require(conv == (shift < tol), "converged_truthful", &class, || format!("batch {}: centroid shift {} tolerance {} reported converged={}", bi, shift, tol, conv));
-            }
-            parts.push(format!("cs={}/cnt={}/conv={}", list2(got_cs.iter().map(|x| x.iter()), |x| hex64c(*x)), list(got_cnt.iter(), |x| hex64c(*x)), conv as u8));
-            cs = got_cs;
-            model = Some(m);
+fn op_mnb_var(em: &mut Em, h: &Hist, p: usize, alpha: f64, qs: &Rows, f32_: bool, lab: usize, layout: usize, real: bool) {
+    let distinct = distinct_labels(h);
+    let lab = if lab == 2 && distinct.len() > 2 { 1 } else { lab };
+    let labname = ["usize", "string", "bool"][lab];
+    let kind = format!("mnb_var:{}:{}:{}{}", if f32_ { "f32" } else { "f64" }, labname, LAYOUTS[layout], if real { ":real" } else { "" });
+    let op = format!("#mnb_var f={} lab={} layout={} alpha={} p={} x={} y={} q={}", if f32_ { 32 } else { 64 }, labname, LAYOUTS[layout], hex64(alpha), p, hist_x(h), hist_y(h), list2(qs.iter().map(|x| x.iter()), |x| hex64(*x)));
+    em.count(&format!("variant:{}", kind));
+    em.case_valid(op, &kind, |ctx| {
+        let (rows, labels) = concat(h);
+        let text = mnb_textbook(&rows, &labels, p, alpha);
+        let defined = |st: &NbState| qs.iter().all(|q| scores_defined(&mnb_jll(st, q)) && scores_defined(&mnb_jll(&text, q)));
+        let (states, pred) = match (f32_, lab) {
+            (false, 0) => mnb_variant::<f64, usize>(h, p, alpha, layout, &distinct, qs, &defined),
+            (false, 1) => mnb_variant::<f64, String>(h, p, alpha, layout, &distinct, qs, &defined),
+            (false, _) => mnb_variant::<f64, bool>(h, p, alpha, layout, &distinct, qs, &defined),
+            (true, 0) => mnb_variant::<f32, usize>(h, p, alpha, layout, &distinct, qs, &defined),
+            (true, 1) => mnb_variant::<f32, String>(h, p, alpha, layout, &distinct, qs, &defined),
+            (true, _) => mnb_variant::<f32, bool>(h, p, alpha, layout, &distinct, qs, &defined),
+        };
+        // f32 log-frequencies: two f32 logarithms and a subtraction of values <= ~10: 1e-5 is > 10 roundings
+        mnb_oracle(ctx, h, p, alpha, &states, &kind, if f32_ { Tols { mean: 5e-5, second: 1e-5, exact: false } } else if real { T64R } else { T64 });
+        let last = states.last().unwrap().clone();
+        if let Some(pred) = pred {
+            let ts = |x: &[f64]| mnb_jll(&text, x);
+            let ts_opt: Option<ScoreFn> = if f32_ { None } else { Some(&ts) };
+            pred_oracle(ctx, &kind, &kind, qs, &pred, None, &|x| mnb_jll(&last, x), ts_opt, if f32_ { 1e-3 } else { 1e-8 });
         }
-        format!("ok {}", parts.join(" "))
-    });
-}
-
-// ---------------------------------------------------------------- FTRL
-
-fn ftrl_w(z: f64, n: f64, hp: &[f64; 4]) -> f64 {
-    let (a, b, l1, l2) = (hp[0], hp[1], hp[2], hp[3]);
-    if z.abs() <= l1 {
-        0.0
-    } else {
-        -(z - z.signum() * l1) / ((b + n.sqrt()) / a + l2)
-    }
-}
-/// the documented per-coordinate recurrence, from the previous state and the probabilities the model used
-fn ftrl_expect(z: &[f64], n: &[f64], hp: &[f64; 4], probs: &[f32], xs: &Rows, ys: &[bool]) -> (Vec<f64>, Vec<f64>) {
-    let p = z.len();
-    let mut zo = vec![];
-    let mut no = vec![];
-    for j in 0..p {
-        let g: f64 = (0..xs.len()).map(|i| (probs[i] as f64 - if ys[i] { 1.0 } else { 0.0 }) * xs[i][j]).sum();
-        let sigma = ((n[j] + g * g).sqrt() - n[j].sqrt()) / hp[0];
-        zo.push(z[j] + g - sigma * ftrl_w(z[j], n[j], hp));
-        no.push(n[j] + g * g);
-    }
-    (zo, no)
-}
-fn ftrl_checks(ctx: &mut Ctx, class: &str, step: usize, m: &Ftrl<f64>, hp: &[f64; 4], z0: &[f64], n0: &[f64], probs: &[f32], xs: &Rows, ys: &[bool]) {
-    let (wz, wn) = ftrl_expect(z0, n0, hp, probs, xs, ys);
-    let (z, n) = (m.z().to_vec(), m.n().to_vec());
-    ctx.require(near_v(&z, &wz, 1e-9) && near_v(&n, &wn, 1e-9), "recurrence", class, || format!("step {}: z {:?} n {:?}, recurrence gives z {:?} n {:?}", step, z, n, wz, wn));
-    ctx.require(n.iter().zip(n0).all(|(a, b)| a >= b), "n_monotone", class, || format!("step {}: n decreased: {:?} -> {:?}", step, n0, n));
-    let w = m.get_weights().to_vec();
-    for j in 0..z.len() {
-        ctx.require((w[j] == 0.0) == (z[j].abs() <= hp[2]), "zero_iff_within_l1", class, || format!("step {}: coordinate {}: z {} l1 {} weight {}", step, j, z[j], hp[2], w[j]));
-    }
-}
-fn show_ftrl(m: &Ftrl<f64>) -> String {
-    format!("z={}/n={}/w={}", list(m.z().iter(), |x| tf(*x)), list(m.n().iter(), |x| tf(*x)), list(m.get_weights().iter(), |x| tf(*x)))
-}
-fn mk_bool_ds(xs: &Rows, ys: &[bool], p: usize) -> Dataset<f64, bool, ndarray::Ix1> {
-    Dataset::new(arr2(xs, p), Array1::from(ys.to_vec()))
-}
-
-fn op_ftrl_update(em: &mut Em, hp: [f64; 4], z: &[f64], n: &[f64], probs: &[f32], xs: &Rows, ys: &[bool]) {
-    let p = z.len();
-    let op = format!(
-        "ftrl_update hp={} z={} n={} probs={} x={} y={}",
-        list(hp.iter(), |x| hex64(*x)),
-        list(z.iter(), |x| hex64(*x)),
-        list(n.iter(), |x| hex64(*x)),
-        list(probs.iter(), |x| hex64(*x as f64)),
-        list2(xs.iter().map(|x| x.iter()), |x| hex64(*x)),
-        list(ys.iter(), |x| (*x as u8).to_string())
-    );
-    em.case_valid(op, "ftrl_update", |ctx| {
-        let arr = |v: &[f64]| serde_json::json!({"v": 1, "dim": [v.len()], "data": v});
-        let mut m: Ftrl<f64> = serde_json::from_value(serde_json::json!({"alpha": hp[0], "beta": hp[1], "l1_ratio": hp[2], "l2_ratio": hp[3], "z": arr(z), "n": arr(n)})).expect("Ftrl deserialises");
-        let ds = mk_bool_ds(xs, ys, p);
-        let pr: Array1<Pr> = Array1::from(probs.iter().map(|x| Pr::new(*x)).collect::<Vec<_>>());
-        m.update(&ds, pr.view());
-        ftrl_checks(ctx, "ftrl_update", 0, &m, &hp, z, n, probs, xs, ys);
-        format!("ok {}", show_ftrl(&m))
-    });
-}
-
-fn op_ftrl_fit(em: &mut Em, hp: [f64; 4], seed: u64, p: usize, batches: &[(Rows, Vec<bool>)]) {
-    // z0 is drawn by the real code from the seeded generator; it is part of the request line
-    let params = Ftrl::<f64>::params_with_rng(Xoshiro256Plus::seed_from_u64(seed)).alpha(hp[0]).beta(hp[1]).l1_ratio(hp[2]).l2_ratio(hp[3]).check().expect("valid FTRL parameters");
-    let z0 = Ftrl::new(params.clone(), p).z().to_vec();
-    let op = format!(
-        "ftrl_fit hp={} z0={} x={} y={}",
-        list(hp.iter(), |x| hex64(*x)),
-        list(z0.iter(), |x| hex64(*x)),
-        list3(batches.iter().map(|(r, _)| r.iter().map(|x| x.iter())), |x| hex64(*x)),
-        list2(batches.iter().map(|(_, l)| l.iter()), |x| (*x as u8).to_string())
-    );
-    em.case_valid(op, "ftrl_fit", |ctx| {
-        let mut model: Option<Ftrl<f64>> = None;
-        let mut parts = vec![];
-        let (mut z, mut n) = (z0.clone(), vec![0.0; p]);
-        for (i, (xs, ys)) in batches.iter().enumerate() {
-            let ds = mk_bool_ds(xs, ys, p);
-            // the probabilities the update will use: the public prediction of the previous model
-            let prev = model.clone().unwrap_or_else(|| Ftrl::new(params.clone(), p));
-            ctx.require(prev.z().to_vec() == z && prev.n().to_vec() == n, "function_of_history", "ftrl_fit", || format!("step {}: state before the update differs from the state after the previous one", i));
-            let probs: Vec<f32> = prev.predict(&arr2(xs, p)).iter().map(|pr| **pr).collect();
-            let m = params.fit_with(model.take(), &ds).expect("fit_with");
-            ftrl_checks(ctx, "ftrl_fit", i, &m, &hp, &z, &n, &probs, xs, ys);
-            z = m.z().to_vec();
-            n = m.n().to_vec();
-            parts.push(show_ftrl(&m));
-            model = Some(m);
-        }
-        format!("ok {}", parts.join(" "))
+        "-".to_string()
     });
 }
 
@@ -543,11 +667,19 @@ fn gen_labels(rng: &mut Rng, n: usize) -> Vec<usize> {
     l
 }
 fn gen_vs(rng: &mut Rng) -> f64 {
-    *rng.pick(&[0.0, 0.0, 0.0, 0.125, 0.5, 1e-9])
+    *rng.pick(&[0.0, 0.0, 0.0, 0.125, 0.5, 1e-9, 0.0009765625])
 }
 fn gnb_data(rng: &mut Rng, n: usize, p: usize) -> (Rows, Vec<usize>) {
     let kind = rng.below(3);
     let rows: Rows = (0..n).map(|_| (0..p).map(|_| lattice(rng, kind)).collect()).collect();
+    (rows, gen_labels(rng, n))
+}
+/// column 0 alternates +16 / -16, the other columns stay within [-8, 8]: every batch that is cut at an even
+/// row has column-0 variance 256 >= every other variance, so all batch epsilons equal the epsilon of the
+/// whole data and incremental fitting must reproduce the textbook estimate for every var_smoothing
+fn gnb_balanced(rng: &mut Rng, n: usize, p: usize) -> (Rows, Vec<usize>) {
+    let kind = rng.below(3);
+    let rows: Rows = (0..n).map(|i| (0..p).map(|j| if j == 0 { if i % 2 == 0 { 16.0 } else { -16.0 } } else { lattice(rng, kind) }).collect()).collect();
     (rows, gen_labels(rng, n))
 }
 fn mnb_data(rng: &mut Rng, n: usize, p: usize) -> (Rows, Vec<usize>) {
@@ -556,13 +688,33 @@ fn mnb_data(rng: &mut Rng, n: usize, p: usize) -> (Rows, Vec<usize>) {
     (rows, gen_labels(rng, n))
 }
 fn gnb_pred_ok(h: &Hist, p: usize, vs: f64) -> bool {
-    // every class needs a positive variance in every feature for the posterior to be defined
+    // every class needs a positive variance in every feature for the posterior to be defined; with
+    // var_smoothing > 0 a zero-variance class has variance epsilon > 0 and is judged
     let (rows, labels) = concat(h);
     let t = gnb_textbook(&rows, &labels, p, vs);
-    let all_pos = |s: &NbState| s.values().all(|(_, _, _, sg)| sg.iter().all(|v| *v > 1e-6));
-    match gnb_run(h, p, vs) {
-        Ok((states, _)) => all_pos(&t) && all_pos(states.last().unwrap()),
-        Err(_) => false,
+    let all_pos = |s: &NbState| s.values().all(|(_, _, _, sg)| sg.iter().all(|v| *v > 0.0 && v.is_finite()));
+    // the real code runs here outside a case: a panic must not take the harness down (the op is then emitted
+    // and the panic is recorded inside the case)
+    let r = std::panic::catch_unwind(std::panic::AssertUnwindSafe(|| gnb_run(h, p, vs)));
+    match r {
+        Ok(Ok((states, _))) => all_pos(&t) && all_pos(states.last().unwrap()),
+        Ok(Err(_)) => false,
+        Err(_) => true,
+    }
+}
+fn mnb_pred_ok(h: &Hist, p: usize, alpha: f64, qs: &Rows) -> bool {
+    if alpha > 0.0 {
+        return true;
+    }
+    // alpha = 0: a feature never seen in a class has log-frequency -inf; 0 * -inf is NaN (posterior
+    // undefined, the arg-max of the real code panics) - such queries are left out
+    let (rows, labels) = concat(h);
+    let t = mnb_textbook(&rows, &labels, p, alpha);
+    let r = std::panic::catch_unwind(std::panic::AssertUnwindSafe(|| mnb_run(h, p, alpha)));
+    match r {
+        Ok(Ok((states, _))) => qs.iter().all(|q| scores_defined(&mnb_jll(&t, q)) && scores_defined(&mnb_jll(states.last().unwrap(), q))),
+        Ok(Err(_)) => false,
+        Err(_) => true,
     }
 }
 fn gen_queries(rng: &mut Rng, rows: &Rows, p: usize, hi: bool) -> Rows {
@@ -578,7 +730,12 @@ fn gen_queries(rng: &mut Rng, rows: &Rows, p: usize, hi: bool) -> Rows {
         .collect()
 }
 
-fn nb_cases(em: &mut Em, rng: &mut Rng, rows_g: &(Rows, Vec<usize>), rows_m: &(Rows, Vec<usize>), p: usize, mask: u64, with_pred: bool) {
+fn gen_queries_real(rng: &mut Rng, rows: &Rows, p: usize) -> Rows {
+    let nq = 1 + rng.below(4);
+    (0..nq).map(|_| if rng.coin() { rng.pick(rows).clone() } else { (0..p).map(|j| rng.pick(rows)[j]).collect() }).collect()
+}
+
+fn nb_cases(em: &mut Em, rng: &mut Rng, rows_g: &(Rows, Vec<usize>), rows_m: &(Rows, Vec<usize>), p: usize, mask: u64, with_var: bool) {
     let vs = gen_vs(rng);
     let alpha = *rng.pick(&[0.0, 0.5, 1.0, 1.0, 2.0]);
     let hg = mk_hist(&rows_g.0, &rows_g.1, mask);
@@ -596,25 +753,69 @@ fn nb_cases(em: &mut Em, rng: &mut Rng, rows_g: &(Rows, Vec<usize>), rows_m: &(R
     em.count(if vs == 0.0 { "gnb:var_smoothing=0" } else { "gnb:var_smoothing>0" });
     op_gnb(em, &hg, p, vs);
     op_mnb(em, &hm, p, alpha);
-    if with_pred {
-        let qg = gen_queries(rng, &rows_g.0, p, false);
-        let qm = gen_queries(rng, &rows_m.0, p, true);
-        if gnb_pred_ok(&hg, p, vs) {
-            op_gnb_pred(em, &hg, p, vs, &qg);
-        } else {
-            em.count("gnb_pred:skipped_zero_variance");
+    let qg = gen_queries(rng, &rows_g.0, p, false);
+    let qm = gen_queries(rng, &rows_m.0, p, true);
+    if gnb_pred_ok(&hg, p, vs) {
+        op_gnb_pred(em, &hg, p, vs, &qg);
+    } else {
+        em.count("gnb_pred:skipped_zero_variance");
+    }
+    if mnb_pred_ok(&hm, p, alpha, &qm) {
+        if alpha == 0.0 {
+            em.count("mnb_pred:alpha=0");
         }
-        if alpha > 0.0 {
-            op_mnb_pred(em, &hm, p, alpha, &qm);
+        op_mnb_pred(em, &hm, p, alpha, &qm);
+    } else {
+        em.count("mnb_pred:skipped_undefined_posterior");
+    }
+    if with_var {
+        // one entry-point variant per model: scalar x label type x layout, never the plain f64/usize/owned one
+        let pick = |rng: &mut Rng| loop {
+            let v = (rng.coin(), rng.below(3), rng.below(3));
+            if v != (false, 0, 0) {
+                return v;
+            }
+        };
+        let (f, l, y) = pick(rng);
+        op_gnb_var(em, &hg, p, vs, &qg, f, l, y, false);
+        let (f, l, y) = pick(rng);
+        op_mnb_var(em, &hm, p, alpha, &qm, f, l, y, false);
+    }
+}
+
+/// histories whose batches all have the epsilon of the whole data (`gnb_balanced`, even cuts only)
+fn balanced_case(em: &mut Em, rng: &mut Rng, d: &(Rows, Vec<usize>), p: usize, half_mask: u64) {
+    // bit i of half_mask = cut after row 2i+1
+    let mut mask = 0u64;
+    for i in 0..31 {
+        if (half_mask >> i) & 1 == 1 {
+            mask |= 1 << (2 * i + 1);
         }
+    }
+    let vs = *rng.pick(&[0.125, 0.5, 1e-9, 0.0009765625, 0.001953125]);
+    let h = mk_hist(&d.0, &d.1, mask);
+    em.count("gnb:balanced");
+    if h.len() > 1 {
+        em.count("gnb:balanced:multi");
+    }
+    op_gnb(em, &h, p, vs);
+    let q = gen_queries(rng, &d.0, p, false);
+    if gnb_pred_ok(&h, p, vs) {
+        op_gnb_pred(em, &h, p, vs, &q);
+    }
+    if rng.chance(1, 3) {
+        op_gnb_var(em, &h, p, vs, &q, rng.coin(), rng.below(3), 1 + rng.below(2), false);
     }
 }
 
 pub fn run(em: &mut Em, rng: &mut Rng) {
+    // KMeansPara samples its candidates inside a rayon `map_init` with one generator per work split; a
+    // single worker thread makes the split (and with it the model) a function of the seed alone
+    let _ = rayon::ThreadPoolBuilder::new().num_threads(1).build_global();
     let thorough = em.thorough();
     // --- naive Bayes: every ordered partition of small datasets (n <= 7) into non-empty batches
-    let nmax = if thorough { 9 } else { 7 };
-    let reps = if thorough { 4 } else { 2 };
+    let nmax = if thorough { 10 } else { 8 };
+    let reps = if thorough { 3 } else { 2 };
     for n in 1..=nmax {
         for _ in 0..reps {
             let p = 1 + rng.below(3);
@@ -626,7 +827,7 @@ pub fn run(em: &mut Em, rng: &mut Rng) {
         }
     }
     // random cuts of larger datasets
-    let extra = if thorough { 1500 } else { 150 };
+    let extra = if thorough { 3000 } else { 300 };
     for _ in 0..extra {
         let n = 8 + rng.below(if thorough { 120 } else { 40 });
         let p = 1 + rng.below(4);
@@ -634,6 +835,71 @@ pub fn run(em: &mut Em, rng: &mut Rng) {
         let dm = mnb_data(rng, n, p);
         let mask = random_mask(rng, n);
         nb_cases(em, rng, &dg, &dm, p, mask, true);
+    }
+    // real-valued (non-lattice) data, f64 only, oracle only: sums inside ndarray are no longer exact, so an
+    // f32 round trip or a reordered / shortened accumulation that lattice data cannot see shows up here
+    for _ in 0..extra {
+        let n = 2 + rng.below(if thorough { 120 } else { 40 });
+        let p = 1 + rng.below(4);
+        let scale = *rng.pick(&[1.0, 100.0, 1e-3]);
+        let offset = *rng.pick(&[0.0, 0.0, 1.0, 50.0]) * scale;
+        let rows_g: Rows = (0..n).map(|_| (0..p).map(|_| offset + (rng.unit() - 0.5) * scale).collect()).collect();
+        let rows_m: Rows = (0..n).map(|_| (0..p).map(|_| rng.unit() * scale).collect()).collect();
+        let labels = gen_labels(rng, n);
+        let mask = random_mask(rng, n);
+        let (vs, alpha) = (gen_vs(rng), *rng.pick(&[0.0, 0.5, 1.0, 2.0]));
+        let hg = mk_hist(&rows_g, &labels, mask);
+        let hm = mk_hist(&rows_m, &labels, mask);
+        let qg = gen_queries_real(rng, &rows_g, p);
+        let qm = gen_queries_real(rng, &rows_m, p);
+        em.count("nb:real_valued");
+        op_gnb_var(em, &hg, p, vs, &qg, false, rng.below(3), rng.below(3), true);
+        op_mnb_var(em, &hm, p, alpha, &qm, false, rng.below(3), rng.below(3), true);
+    }
+    // a few long histories: class counts in the hundreds (products of counts beyond 16 bits)
+    for _ in 0..(if thorough { 40 } else { 8 }) {
+        let n = 200 + rng.below(500);
+        let p = 1 + rng.below(3);
+        let dg = gnb_data(rng, n, p);
+        let dm = mnb_data(rng, n, p);
+        // two to five batches
+        let mut mask = 0u64;
+        let _ = &mut mask;
+        let cuts: Vec<usize> = (0..1 + rng.below(4)).map(|_| 1 + rng.below(n - 1)).collect();
+        let cut_at = |rows: &Rows, labels: &[usize]| -> Hist {
+            let mut cs = cuts.clone();
+            cs.sort();
+            cs.dedup();
+            let mut out: Hist = vec![];
+            let mut start = 0;
+            for c in cs.iter().chain(std::iter::once(&rows.len())) {
+                out.push((rows[start..*c].to_vec(), labels[start..*c].to_vec()));
+                start = *c;
+            }
+            out
+        };
+        let (vs, alpha) = (gen_vs(rng), *rng.pick(&[0.5, 1.0]));
+        em.count("nb:long_history");
+        op_gnb(em, &cut_at(&dg.0, &dg.1), p, vs);
+        op_mnb(em, &cut_at(&dm.0, &dm.1), p, alpha);
+    }
+    // balanced histories: var_smoothing > 0 and incremental == textbook must hold exactly
+    let hmax = if thorough { 8 } else { 6 };
+    for half in 1..=hmax {
+        for _ in 0..reps {
+            let p = 1 + rng.below(3);
+            let d = gnb_balanced(rng, 2 * half, p);
+            for hm in 0..(1u64 << (half - 1)) {
+                balanced_case(em, rng, &d, p, hm);
+            }
+        }
+    }
+    for _ in 0..extra / 2 {
+        let half = 4 + rng.below(if thorough { 40 } else { 16 });
+        let p = 1 + rng.below(4);
+        let d = gnb_balanced(rng, 2 * half, p);
+        let hm = random_mask(rng, half);
+        balanced_case(em, rng, &d, p, hm);
     }
     // error branch of the real code: an empty batch in the history / no feature column
     {
@@ -643,51 +909,30 @@ pub fn run(em: &mut Em, rng: &mut Rng) {
         op_gnb(em, &h0, 0, 0.0);
     }
 
-    // --- mini-batch k-means
-    let nkm = if thorough { 3000 } else { 300 };
-    for _ in 0..nkm {
-        let k = 1 + rng.below(4);
-        let p = 1 + rng.below(3);
-        let kind = rng.below(3);
-        let c0: Rows = (0..k).map(|_| (0..p).map(|_| lattice(rng, kind)).collect()).collect();
-        let nb = 1 + rng.below(if thorough { 8 } else { 5 });
-        let batches: Vec<Rows> = (0..nb).map(|_| (0..1 + rng.below(6)).map(|_| (0..p).map(|_| lattice(rng, kind)).collect()).collect()).collect();
-        let tol = *rng.pick(&[0.5, 1.0, 2.0, 4.0, 1e-4, 100.0]);
-        em.count(&format!("km:k={}", k));
-        op_km(em, &c0, &batches, tol, rng.next());
-    }
+    km::run(em, rng);
+    ftrl::run(em, rng);
 
-    // --- FTRL
-    let nft = if thorough { 3000 } else { 300 };
-    for _ in 0..nft {
-        let p = 1 + rng.below(4);
-        let mut hp = [*rng.pick(&[0.005, 0.5, 1.0, 2.0]), *rng.pick(&[0.0, 0.5, 1.0]), *rng.pick(&[0.0, 0.25, 0.5, 1.0]), *rng.pick(&[0.0, 0.5, 1.0])];
-        if hp[1] == 0.0 && hp[3] == 0.0 {
-            // beta = l2 = 0 makes the very first weight (n = 0) a division by zero in the textbook formula itself
-            hp[3] = 0.5;
-        }
-        // lattice state with |z| on, below and above the l1 threshold
-        let z: Vec<f64> = (0..p)
-            .map(|_| match rng.below(4) {
-                0 => hp[2],
-                1 => -hp[2],
-                _ => rng.range(-16, 16) as f64 / 8.0,
-            })
-            .collect();
-        let n: Vec<f64> = (0..p).map(|_| (rng.range(0, 6) * rng.range(0, 6)) as f64 / 4.0).collect();
-        let rows = 1 + rng.below(6);
-        let xs: Rows = (0..rows).map(|_| (0..p).map(|_| rng.range(-3, 3) as f64).collect()).collect();
-        let ys: Vec<bool> = (0..rows).map(|_| rng.coin()).collect();
-        let probs: Vec<f32> = (0..rows).map(|_| rng.range(0, 16) as f32 / 16.0).collect();
-        op_ftrl_update(em, hp, &z, &n, &probs, &xs, &ys);
-        // full histories from the seeded initial state
-        let nb = 1 + rng.below(if thorough { 10 } else { 5 });
-        let batches: Vec<(Rows, Vec<bool>)> = (0..nb)
-            .map(|_| {
-                let r = 1 + rng.below(5);
-                ((0..r).map(|_| (0..p).map(|_| rng.range(-3, 3) as f64).collect()).collect(), (0..r).map(|_| rng.coin()).collect())
-            })
-            .collect();
-        op_ftrl_fit(em, hp, rng.next() % 1000, p, &batches);
+    // floors: the streams the clauses above depend on must actually have been generated (a replay of a single
+    // case skips this)
+    if em.only.is_none() {
+        let floors: [(&str, u64); 9] = [
+            ("nb:class_incomplete_batch", 150),
+            ("gnb:var_smoothing>0", 110),
+            ("gnb:balanced:multi", 60),
+            ("op:gnb_pred", 230),
+            ("op:mnb_pred", 190),
+            ("nb:real_valued", 100),
+            ("km_init:kmeans++", 40),
+            ("ftrl:logit<-35", 20),
+            ("ftrl:logit>35", 20),
+        ];
+        let dist = em.dist.clone();
+        em.case("#floors".to_string(), |ctx| {
+            for (key, min) in floors.iter() {
+                let got = dist.get(*key).cloned().unwrap_or(0);
+                ctx.require(got >= *min, "generator_floor", "floors", || format!("only {} cases of {} generated (floor {})", got, key, min));
+            }
+            "-".to_string()
+        });
     }
 }
